@@ -549,11 +549,14 @@ def gen_case(rng, opts=None):
     atol = abs(tol) if tol else 1e-4
     # ---- transforms
     trs = []          # (num, deg, disp, rot, m2a)
-    ntr = rng.choice([0, 0, 1, 2, 3, 4])
+    ntr = rng.choice([0, 0, 1, 2, 3, 3, 4, 5])
     trnums = rng.sample(range(1, 30), ntr)
+    root = {}         # transform number -> the transform it was derived from (a family of look-alike transforms)
     for i, tn in enumerate(trnums):
-        if trs and rng.random() < 0.6:
+        root[tn] = tn
+        if trs and rng.random() < 0.7:
             b = rng.choice(trs)
+            root[tn] = root[b[0]]
             deg, disp, rot, m2a = b[1], list(b[2]), list(b[3]), b[4]
             r = rng.random()
             if r < 0.25:
@@ -586,14 +589,17 @@ def gen_case(rng, opts=None):
         base = [rng.choice(BASES) for _ in range(ARITY[mn])]
         if mn[0] == "c":
             base[-1] = abs(base[-1]) or 1.0
-        btr = rng.choice(trnums) if trnums and rng.random() < 0.35 else None
+        btr = rng.choice(trnums) if trnums and rng.random() < 0.5 else None
+        kin = [t for t in trnums if btr is not None and root[t] == root[btr] and t != btr]
         bmod = rng.choice(["", "", "", "", "*", "+"])
         for k in range(rng.choice([1, 2, 2, 3, 3, 4, 5])):
             s = {"mn": mn, "consts": list(base), "tr": btr, "mod": bmod, "per": False}
             if k > 0:
                 for _ in range(rng.choice([0, 1, 1, 1, 2])):
                     r = rng.random()
-                    if r < 0.45:
+                    if kin and rng.random() < 0.5:
+                        s["tr"] = rng.choice(kin)          # same constants, a look-alike transform
+                    elif r < 0.45:
                         j = rng.randrange(len(base))
                         s["consts"][j] = s["consts"][j] + rng.choice([-1, 1]) * rng.choice(KS) * atol
                         if mn[0] == "c" and j == len(base) - 1 and s["consts"][j] <= 0:
